@@ -58,9 +58,14 @@ inductive Frag : Node → Prop
   | loop (n : Node) (t : Tok) (c0 body : Node) (ht : n.tok = some t) (h : n.name = "loop")
       (hc : n.children = [some c0, some body]) (f0 : Frag c0) (fb : Frag body) : Frag n
   | istring (n : Node) (t : Tok) (ht : n.tok = some t) (h : n.name = "string") : Frag n
+  | asN (n : Node) (t : Tok) (v : Node) (ht : n.tok = some t) (h : n.name = "as") (hc : n.children = [some v])
+      (fv : Frag v) : Frag n
+  | tryN (n : Node) (t : Tok) (body : Node) (clauses : List Node) (ht : n.tok = some t) (h : n.name = "try")
+      (hc : n.children = some body :: clauses.map some) (fb : Frag body) (hbn : body.name ≠ "finally")
+      (hcl : ∀ c, c ∈ clauses → Clause c) : Frag n
   | inert (n : Node) (t : Tok) (ht : n.tok = some t)
       (h : n.name = "like" ∨ n.name = "kvp" ∨ n.name = "preset" ∨ n.name = "params" ∨ n.name = "funccall" ∨
-           n.name = "compaccess" ∨ n.name = "as" ∨ n.name = "except" ∨ n.name = "otherwise" ∨ n.name = "finally" ∨
+           n.name = "compaccess" ∨ n.name = "except" ∨ n.name = "otherwise" ∨ n.name = "finally" ∨
            n.name = "sink" ∨ n.name = "import" ∨ n.name = "mutex") : Frag n
 /-- a link of an access path `a.b[c]…`: index expression, field (with its own continuation), anything else -/
 inductive Link : Node → Prop
@@ -68,6 +73,14 @@ inductive Link : Node → Prop
   | field (c : Node) (t : Tok) (kids : List Node) (hn : c.name = "identifier") (ht : c.tok = some t)
       (hc : c.children = kids.map some) (hl : ∀ k, k ∈ kids → Link k) : Link c
   | other (c : Node) (hn : c.name ≠ "compaccess" ∧ c.name ≠ "identifier" ∧ c.name ≠ "funccall") : Link c
+/-- a clause of `try`: an except clause (any of its shapes: its children are `Frag`), an otherwise / finally
+    block, anything else (ignored by the evaluator) -/
+inductive Clause : Node → Prop
+  | exc (c : Node) (t : Tok) (kids : List Node) (hn : c.name = "except") (ht : c.tok = some t)
+      (hc : c.children = kids.map some) (hne : kids ≠ []) (hk : ∀ k, k ∈ kids → Frag k) : Clause c
+  | blk (c : Node) (t : Tok) (b : Node) (hn : c.name = "otherwise" ∨ c.name = "finally") (ht : c.tok = some t)
+      (hc : c.children = [some b]) (fb : Frag b) : Clause c
+  | other (c : Node) (hn : c.name ≠ "except" ∧ c.name ≠ "otherwise" ∧ c.name ≠ "finally") : Clause c
 /-- an entry of a map literal: not a key-value pair (the evaluator answers with an error), or a pair of expressions -/
 inductive FragEntry : Node → Prop
   | bad (c : Node) (h : c.name ≠ "kvp" ∨ c.children.length ≠ 2) : FragEntry c
@@ -442,6 +455,62 @@ theorem iterLoop_np {σ : Type} (next : σ → M (Val × σ)) (bnd : Val → M U
 theorem bindLoopVars_np (ls : Nat) (n : Node) (vars : List (List Nat)) (item : Val) : NP (bindLoopVars ls n vars item) := by
   unfold bindLoopVars; np
 
+theorem dispatchExcept_np : ∀ (hs : List Handler), (∀ h, h ∈ hs → ∀ e, NP (h e)) → ∀ e, e ≠ Sig.panic → NP (dispatchExcept hs e) := by
+  intro hs; induction hs with
+  | nil => intro _ e he; unfold dispatchExcept; exact NPQ.throw _ _ he
+  | cons h hs ih =>
+    intro hh e he
+    unfold dispatchExcept
+    refine NPQ.bind _ _ (fun _ => True) _ (hh h (by simp) e) (fun r _ => ?_)
+    split
+    · np
+    · exact ih (fun h' hm => hh h' (by simp [hm])) e he
+
+theorem tryCore_np (body : M Val) (handlers : List Handler) (oth : Option (M Val)) (hb : NP body)
+    (hh : ∀ h, h ∈ handlers → ∀ e, NP (h e)) (ho : ∀ o, oth = some o → NP o) : NP (tryCore body handlers oth) := by
+  unfold tryCore
+  refine NPQ.bind _ _ _ _ (NPQ.attemptE _ _ hb) (fun r hr => ?_)
+  cases r with
+  | ok v =>
+    dsimp only []
+    split
+    · rename_i o; exact NPQ.bind _ _ (fun _ => True) _ (ho o rfl) (fun _ _ => NPQ.pure _ _ trivial)
+    · np
+  | error e =>
+    have he : e ≠ Sig.panic := hr
+    dsimp only []
+    split
+    · np
+    · exact dispatchExcept_np handlers hh e he
+
+theorem tryFinally_np (main : M Val) (fin : Option (M Val)) (hm : NP main) (hf : ∀ fi, fin = some fi → NP fi) :
+    NP (Ecal.Ev.tryFinally main fin) := by
+  unfold Ecal.Ev.tryFinally
+  refine NPQ.bind _ _ _ _ (NPQ.attemptE _ _ hm) (fun r hr => ?_)
+  dsimp only []
+  cases r with
+  | ok v =>
+    split
+    · rename_i fi; have hfi := hf fi rfl; np
+    · np
+  | error e =>
+    have he : e ≠ Sig.panic := hr
+    split
+    · rename_i fi; have hfi := hf fi rfl; np
+    · np
+
+theorem typedMatch_np (ty : String) (f : List Nat → String) : ∀ (l : List (M Val)), (∀ m, m ∈ l → NP m) → NP (typedMatch ty f l) := by
+  intro l; induction l with
+  | nil => intro _; unfold typedMatch; np
+  | cons m ms ih =>
+    intro h
+    have hm := h m (by simp)
+    have ih' := ih (fun m' hm' => h m' (by simp [hm']))
+    unfold typedMatch; np
+
+theorem errObject_np (e : Sig) : NP (errObject e) := by unfold errObject; np
+macro_rules | `(tactic| np_lem) => `(tactic| exact errObject_np _)
+
 theorem withFreshIs_np {α : Type} (m : M α) (hm : NP m) : NP (withFreshIs m) := by
   unfold withFreshIs
   refine NPQ.bind (get : M St) _ Inv _ NPQ.get (fun s hs => ?_)
@@ -461,6 +530,14 @@ theorem scopeName_np (n : Node) (t : Tok) (ht : n.tok = some t) : NP (scopeName 
 theorem Frag.in_inv {n : Node} (h : Frag n) (hn : n.name = "in") :
     ∃ a b : Node, n.children = [some a, some b] ∧ Frag a ∧ Frag b := by
   cases h <;> first | exact ⟨_, _, by assumption, by assumption, by assumption⟩ | simp_all
+
+theorem Frag.as_inv {n : Node} (h : Frag n) (hn : n.name = "as") : ∃ v : Node, n.children = [some v] ∧ Frag v := by
+  cases h <;> first | exact ⟨_, by assumption, by assumption⟩ | simp_all
+
+theorem getLast?_cons_append_singleton {α : Type} (a : α) (l : List α) (x : α) : (a :: (l ++ [x])).getLast? = some x := by
+  induction l generalizing a with
+  | nil => rfl
+  | cons b l ih => rw [List.cons_append, List.getLast?_cons_cons]; exact ih b
 
 theorem Good.false {cn : Node} (h : Good cn) : False := by
   obtain ⟨kids, _, hl, fc, hfc, hn⟩ := h
@@ -682,6 +759,139 @@ theorem evalIdent_any (sc : Nat) (n : Node) (t : Tok) (kids : List Node) (ht : n
   cases g with
   | zero => unfold evalIdent; np
   | succ g' => exact evalIdent_step g' (fun g'' h => ihs g'' (by omega)) sc n t kids ht hc hl (hcall g' (by omega))
+theorem exceptHandler_step (sc : Nat) (c : Node) (t : Tok) (kids : List Node) (ht : c.tok = some t)
+    (hc : c.children = kids.map some) (hne : kids ≠ []) (hk : ∀ k, k ∈ kids → Frag k) (e : Sig) :
+    NP (exceptHandler (g+1) sc c e) := by
+  have ih := ihs g (Nat.le_refl g)
+  have hsn := scopeName_np c t ht
+  unfold exceptHandler
+  dsimp only []
+  obtain ⟨k0, krest, rfl⟩ := List.exists_cons_of_ne_nil hne
+  have f0 : Frag k0 := hk k0 (by simp)
+  cases krest with
+  | nil => simp [hc, child]; np
+  | cons k1 krest =>
+    have f1 : Frag k1 := hk k1 (by simp)
+    simp [hc, child]
+    split
+    · -- binding form `except e { }` / `except as e { }`
+      by_cases has : k0.name = "as"
+      · obtain ⟨v, hv, fv⟩ := Frag.as_inv f0 has
+        simp [has, hv, child]; np
+      · simp [has]; np
+    · -- typed clause
+      refine NPQ.bind _ _ (fun r => ∀ b, b ∈ r → Frag b) _ ?_ (fun kids' hk' => ?_)
+      · refine NPQ.mapMQ Frag krest _ (fun a ha => ?_)
+        simp only [Function.comp_apply]
+        exact NPQ.pure _ _ (hk a (by simp [ha]))
+      · have hfull : ∀ b, b ∈ k0 :: k1 :: kids' → Frag b := by
+          intro b hb
+          simp only [List.mem_cons] at hb
+          rcases hb with hb | hb | hb
+          · subst hb; exact f0
+          · subst hb; exact f1
+          · exact hk' b hb
+        have hdrop : ∀ b, b ∈ List.dropWhile (fun x => x.name == "string") (k0 :: k1 :: kids') → Frag b :=
+          fun b hb => hfull b ((List.dropWhile_sublist _).subset hb)
+        have htake : ∀ b, b ∈ List.takeWhile (fun x => x.name == "string") (k0 :: k1 :: kids') → Frag b :=
+          fun b hb => hfull b ((List.takeWhile_sublist _).subset hb)
+        refine NPQ.bind _ _ (fun x => Frag x.2) _ ?_ (fun x hx => ?_)
+        · split
+          · rename_i st heq
+            have fst : Frag st := hdrop st (by rw [heq]; simp)
+            split
+            · exact NPQ.pure _ _ fst
+            · np
+          · rename_i a st heq
+            have fa : Frag a := hdrop a (by rw [heq]; simp)
+            have fst : Frag st := hdrop st (by rw [heq]; simp)
+            split
+            · rename_i hcond
+              have has : a.name = "as" := hcond.1
+              obtain ⟨v, hv, fv⟩ := Frag.as_inv fa has
+              simp [hv, child]
+              refine NPQ.bind _ _ (fun _ => True) _ (tokOf_np v fv) (fun _ _ => NPQ.pure _ _ fst)
+            · np
+          · np
+        · refine NPQ.bind _ _ (fun _ => True) _ (typedMatch_np _ _ _ (by
+            intro m hm
+            obtain ⟨ch, hch, rfl⟩ := List.mem_map.mp hm
+            exact ih sc ch (htake ch hch))) (fun _ _ => ?_)
+          np
+theorem exceptHandler_any (sc : Nat) (c : Node) (t : Tok) (kids : List Node) (ht : c.tok = some t)
+    (hc : c.children = kids.map some) (hne : kids ≠ []) (hk : ∀ k, k ∈ kids → Frag k) (e : Sig) :
+    NP (exceptHandler g sc c e) := by
+  cases g with
+  | zero => unfold exceptHandler; np
+  | succ g' => exact exceptHandler_step g' (fun g'' h => ihs g'' (by omega)) sc c t kids ht hc hne hk e
+theorem evalTry_step (sc : Nat) (n : Node) (t : Tok) (body : Node) (clauses : List Node) (ht : n.tok = some t)
+    (hc : n.children = some body :: clauses.map some) (fb : Frag body) (hbn : body.name ≠ "finally")
+    (hcl : ∀ c, c ∈ clauses → Clause c) : NP (evalTry (g+1) sc n) := by
+  have ih := ihs g (Nat.le_refl g)
+  unfold evalTry
+  simp only [hc, List.drop_succ_cons, List.drop_zero]
+  refine NPQ.bind _ _ (fun l => l.name = "finally" → ∃ (tl : Tok) (b : Node), l.tok = some tl ∧ l.children = [some b] ∧ Frag b) _ ?_ (fun last hlast => ?_)
+  · rcases List.eq_nil_or_concat clauses with rfl | ⟨init, lc, rfl⟩
+    · simp; exact NPQ.pure _ _ (fun h => absurd h hbn)
+    · have hL : (some body :: List.map some (init.concat lc)).getLast? = some (some lc) := by
+        rw [List.concat_eq_append, List.map_append]
+        exact getLast?_cons_append_singleton _ _ _
+      rw [hL]; dsimp only []
+      refine NPQ.pure _ _ ?_
+      intro hf
+      cases hcl lc (by simp) with
+      | exc c t kids hn ht hc hne hk => simp_all
+      | blk c t b hn ht hc fb => exact ⟨t, b, ht, hc, fb⟩
+      | other c hn => exact absurd hf hn.2.2
+  · refine NPQ.bind _ _ (fun fin => ∀ fi, fin = some fi → NP fi) _ ?_ (fun fin hfin => ?_)
+    · split
+      · rename_i hfn
+        obtain ⟨tl, b, htl, hcl', fbl⟩ := hlast (by simpa using hfn)
+        refine NPQ.bind _ _ (fun _ => True) _ (scopeName_np last tl htl) (fun _ _ => ?_)
+        refine NPQ.bind _ _ (fun _ => True) _ (newChild_np _ _) (fun fs _ => ?_)
+        refine NPQ.pure _ _ ?_
+        intro fi hfi
+        cases hfi
+        simp [child, hcl']
+        exact ih _ _ fbl
+      · exact NPQ.pure _ _ (by intro fi h; cases h)
+    · refine tryFinally_np _ _ ?_ hfin
+      refine NPQ.bind _ _ (fun _ => True) _ (scopeName_np n t ht) (fun _ _ => ?_)
+      refine NPQ.bind _ _ (fun _ => True) _ (newChild_np _ _) (fun tvs _ => ?_)
+      refine tryCore_np _ _ _ ?_ ?_ ?_
+      · simp [hc, child]; exact ih _ _ fb
+      · intro h hm e
+        obtain ⟨a, ha, hha⟩ := List.mem_filterMap.mp hm
+        obtain ⟨c, hcm, rfl⟩ := List.mem_map.mp ha
+        dsimp only [] at hha
+        split at hha
+        · cases hha
+          rename_i hex
+          cases hcl c hcm with
+          | exc c t kids hn ht hc hne hk => exact exceptHandler_any g ihs sc c t kids ht hc hne hk e
+          | blk c t b hn ht hc fb => simp_all
+          | other c hn => simp_all
+        · cases hha
+      · intro o ho
+        split at ho
+        · rename_i o' heq
+          cases ho
+          have hm : o' ∈ clauses := by
+            have := List.mem_of_find?_eq_some heq
+            obtain ⟨x, hx, hx'⟩ := List.mem_map.mp this
+            cases hx'; exact hx
+          have hname : o'.name = "otherwise" := by
+            have := List.find?_some heq
+            simpa using this
+          cases hcl o' hm with
+          | exc c t kids hn ht hc hne hk => simp_all
+          | blk c t b hn ht hc' fb' =>
+            refine NPQ.bind _ _ (fun _ => True) _ (scopeName_np o' t ht) (fun _ _ => ?_)
+            refine NPQ.bind _ _ (fun _ => True) _ (newChild_np _ _) (fun ovs _ => ?_)
+            simp [child, hc']
+            exact ih _ _ fb'
+          | other c hn => simp_all
+        · cases ho
 theorem ifBranches_any (sc : Nat) : ∀ (pairs : List (Node × Node)), (∀ p, p ∈ pairs → Frag p.1) → (∀ p, p ∈ pairs → Frag p.2) →
     ∀ k, k ≤ g + 1 → NPQ (ifBranches k sc (pairs.flatMap (fun p => [some p.1, some p.2])))
       (fun l => ∀ q, q ∈ l → NP q.1 ∧ NP q.2) := by
@@ -865,8 +1075,14 @@ theorem eval_frag_np : ∀ (f sc : Nat) (n : Node), Frag n → NP (eval f sc n) 
         split
         · exact NPQ.map _ _ (interpolate_any f ihs sc n t ht f (by omega) _)
         · np
+      | asN n t v ht h hc fv => unfold eval; simp [h]; np
+      | tryN n t body clauses ht h hc fb hbn hcl =>
+        unfold eval; simp [h]
+        cases f with
+        | zero => unfold evalTry; np
+        | succ f' => exact evalTry_step f' (fun g'' hg => ihs g'' (by omega)) sc n t body clauses ht hc fb hbn hcl
       | inert n t ht h =>
-        rcases h with h | h | h | h | h | h | h | h | h | h | h | h | h <;> (unfold eval; simp [h]; np)
+        rcases h with h | h | h | h | h | h | h | h | h | h | h | h <;> (unfold eval; simp [h]; np)
 
 /-- the statement in the shape used by `Props/C06.lean` -/
 theorem eval_frag_no_panic (f sc : Nat) (n : Node) (hn : Frag n) (s : St) (hs : Inv s) :
